@@ -150,24 +150,38 @@ func (r roundPlan) String() string {
 }
 
 func buildPipeline(rng *mon.RNG, rp roundPlan, g, k int) pipeline {
+	// the first pipeline of the first six goroutines is always a stream that
+	// ends abnormally (failing source reader / consumer that walks away): it
+	// runs in the alone phase, at the start of the concurrent phase and again at
+	// the start of its second loop, i.e. before and during the healthy streams
+	if k == 0 && g < 4 {
+		return newFaultSpec(rng, "srcerr")
+	}
+	if k == 0 && g < 6 {
+		return newFaultSpec(rng, "abandon")
+	}
 	w := rng.Intn(100)
 	switch {
-	case w < 32:
+	case w < 28:
 		return newEncSpec(rng, false)
-	case w < 47:
+	case w < 40:
 		return newEncSpec(rng, true)
-	case w < 61:
+	case w < 53:
 		return newSymSpec(rng)
-	case w < 71:
+	case w < 62:
 		return newAsymSpec(rng, g)
-	case w < 76:
+	case w < 67:
 		return newKeysSpec(rng, g)
-	case w < 84:
+	case w < 75:
 		return newCronSpec(rng)
-	case w < 92:
+	case w < 83:
 		return newLogSpec(rng, rp.idx, g, k)
-	default:
+	case w < 90:
 		return newPoolSpec(rng, g)
+	case w < 97:
+		return newFaultSpec(rng, "srcerr")
+	default:
+		return newFaultSpec(rng, "abandon")
 	}
 }
 
@@ -320,11 +334,14 @@ func TestCheck(t *testing.T) {
 	nRounds := mon.Pick(12, 624)
 	rec.Note("rule", "A case is a round (GOMAXPROCS from {2,4,16} by round index, 16-64 goroutines, 3 pipelines per goroutine, 2 loops); an evaluation is one concurrent run of one pipeline whose result was compared with the result of the same pipeline run alone beforehand. "+
 		"Pipelines (seeded): enc = fresh enc/v1 Encrypt->Decrypt per run with own message (lengths 0-1200 around the 512-byte header read step, k*64KiB-17..+17 for k=1..3, random <= 200 KiB), own key-encryption key, the 7 key-wrap algorithm names, 3 cipher options, key names of 1-300 bytes, chunked/whole/streamed readers, slow consumers, wrap/unwrap callbacks that Gosched or sleep, and 14 deliberately invalid document shapes (wrong key, failing unwrap, replaced MAC/manifest/scheme line, cuts inside the header, flipped/truncated segments) compared by decrypt error text, stream error text and the plaintext delivered; "+
+		"srcerr = Encrypt or Decrypt (over the reference run's document) whose SOURCE reader returns a non-EOF error before any data / in the middle of a segment / exactly at a segment boundary / together with the last data / inside the header, compared by error text and by what was delivered before it; abandon = the consumer reads a prefix of the Encrypt or Decrypt output and closes the reader; the first pipeline of goroutines 0-3 of every round is a srcerr, of goroutines 4-5 an abandon, so they run alone beforehand, at the start of the concurrent phase and again at the start of the second loop; "+
 		"dec = the document produced by the reference run decrypted again concurrently (bit-identical input); sym = EncryptSymmetric/DecryptSymmetric or crypto.Encrypt/Decrypt over all 19 symmetric names with own key/nonce/AAD, with tampered tags; asym = the 5 RSA encryption names and 10 signature names with per-goroutine jwk keys; keys = SerializeKey/ParseKey/pem round trips; cron = ParseStandard and 6 custom parsers over valid and invalid specs, descriptors and TZ prefixes; log = logger.NewLogger under fresh distinct names (JSON and text output into an own buffer, lines compared without time) and under names shared by several goroutines (same instance), cron.PrintfLogger/VerbosePrintfLogger; pool = byteslicepool Get/Resize/Put cycles on 3 shared and per-goroutine pools under the ownership monitor; every slice is Put filled with its owner's non-zero stamp, and a Get that returns a backing array the monitor saw Put before (same element-0 address; the monitor pins every array it tracks) must show zeros in the first L bytes (L = length at the last Put) both through b[:cap(b)] and through Resize(b, L) - also run as a 48-step one-goroutine Get/fill/Put loop at the start of every round. "+
 		"distinct = distinct pipeline descriptions; non-trivial = at least one of its concurrent runs started while >= 16 goroutines of the round were active. Both builds (-race 'main', 'plain') run the same plan; counters prefixed main./plain. split them.")
 	rec.Note("require", []string{"main.pipelines", "plain.pipelines", "gomaxprocs.2.rounds", "gomaxprocs.4.rounds", "gomaxprocs.16.rounds",
 		"enc.same_as_alone.real_work", "dec.same_as_alone.real_work", "sym.same_as_alone.real_work", "asym.same_as_alone.real_work", "keys.same_as_alone.real_work",
-		"cron.same_as_alone.real_work", "log.same_as_alone.real_work", "pool.same_as_alone.real_work",
+		"cron.same_as_alone.real_work", "log.same_as_alone.real_work", "pool.same_as_alone.real_work", "srcerr.same_as_alone.real_work", "abandon.same_as_alone.real_work",
+		"enc.source_error_pipelines", "enc.abandoned_stream_pipelines", "enc.source_error.encrypt.mid-segment", "enc.source_error.decrypt.mid-segment", "enc.source_error.encrypt.segment-boundary", "enc.source_error.decrypt.segment-boundary",
+		"enc.source_error.encrypt.before-any-data", "enc.source_error.encrypt.with-last-data", "enc.source_error.decrypt.with-last-data", "enc.slow_consumer_streams",
 		"enc.invalid_documents_same_error", "enc.unwrap_callback_pauses", "enc.streamed_decrypts", "enc.len.around_512_header_step", "enc.len.around_64KiB_boundary",
 		"pool.gets", "pool.gets_recycled", "pool.stamp_checks", "pool.recycled_gets_checked_for_previous_owner_bytes", "pool.recycled_gets_checked.concurrent_phase",
 		"pool.sequential.recycled_gets_checked_for_previous_owner_bytes", "log.shared_name_lookups", "log.shared_names_with_several_goroutines",
